@@ -18,6 +18,8 @@ var fmtLines = []string{
 	"##!< end of block", "  ##!<1",
 	// runs of three and more blanks / TABs between the arguments of a directive
 	"##!> include-except   inc    ex \t\t ex", "##!>  include    inc   --   a    b",
+	// the upper-case lint also looks into definitions
+	"##!> define u [A-Z]+",
 }
 
 // troublemakers of C10: comments that look like directives, odd arguments, glued keywords, upper-case / unsupported flags
